@@ -46,6 +46,10 @@ type Tunnel struct {
 	// LastSeen is when the server received the last packet from the client
 	LastSeen time.Time
 
+	// rbuf holds bytes received from the client that are not part of a
+	// complete packet yet
+	rbuf []byte
+
 	// writeMu serializes writes to transportOut: the packet loop and the
 	// goroutine forwarding data from the remote desktop server both write
 	writeMu sync.Mutex
@@ -78,7 +82,7 @@ func (t *Tunnel) Close() {
 // packet, with the header removed, and the packet size. It updates the
 // statistics for bytes received
 func (t *Tunnel) Read() (pt int, size int, pkt []byte, err error) {
-	pt, size, pkt, err = readMessage(t.transportIn)
+	pt, size, pkt, err = readMessage(t.transportIn, &t.rbuf)
 	t.BytesReceived += int64(size)
 	t.LastSeen = time.Now()
 
